@@ -75,7 +75,13 @@ impl BlsSerde for Bls12381G1Impl {
     fn deserialize_scalar<'de, D: Deserializer<'de>>(
         deserializer: D,
     ) -> Result<<Self::PublicKey as Group>::Scalar, D::Error> {
-        <Scalar as Deserialize<'de>>::deserialize(deserializer)
+        if deserializer.is_human_readable() {
+            let repr: [u8; 32] = hex_repr(deserializer)?;
+            Option::from(Scalar::from_be_bytes(&repr))
+                .ok_or_else(|| serde::de::Error::custom("invalid scalar"))
+        } else {
+            <Scalar as Deserialize<'de>>::deserialize(deserializer)
+        }
     }
 
     fn deserialize_scalar_share<'de, D: Deserializer<'de>>(
@@ -87,13 +93,25 @@ impl BlsSerde for Bls12381G1Impl {
     fn deserialize_signature<'de, D: Deserializer<'de>>(
         deserializer: D,
     ) -> Result<Self::Signature, D::Error> {
-        Self::Signature::deserialize(deserializer)
+        if deserializer.is_human_readable() {
+            let repr: <Self::Signature as GroupEncoding>::Repr = hex_repr(deserializer)?;
+            Option::from(Self::Signature::from_bytes(&repr))
+                .ok_or_else(|| serde::de::Error::custom("invalid point"))
+        } else {
+            Self::Signature::deserialize(deserializer)
+        }
     }
 
     fn deserialize_public_key<'de, D: Deserializer<'de>>(
         deserializer: D,
     ) -> Result<Self::PublicKey, D::Error> {
-        Self::PublicKey::deserialize(deserializer)
+        if deserializer.is_human_readable() {
+            let repr: <Self::PublicKey as GroupEncoding>::Repr = hex_repr(deserializer)?;
+            Option::from(Self::PublicKey::from_bytes(&repr))
+                .ok_or_else(|| serde::de::Error::custom("invalid point"))
+        } else {
+            Self::PublicKey::deserialize(deserializer)
+        }
     }
 
     fn deserialize_public_key_share<'de, D: Deserializer<'de>>(
